@@ -317,7 +317,7 @@ def undo_flips():
 
 
 PARTICLE_STATE_BYTES = list(range(0, 96)) + list(range(104, 108))      # doubles + hash
-VARCONFIG_STATE_BYTES = list(range(8, 28)) + list(range(32, 40))
+VARCONFIG_STATE_BYTES = list(range(8, 28)) + list(range(32, 39))   # not the sign byte of lrescale: -0.0 == 0.0 is (acceptably) no difference
 
 
 def run_mutate(case, ctx):
